@@ -13,6 +13,10 @@
 (*     is a history of its own: the probe for a result that shares objects with the operand).  Shape "free" = any steps  *)
 (*     (TLC simulation of longer sessions).  Seeds flagged dup (an explicit order that lists a   *)
 (*     value twice) get calls with explicit value orders only.                                   *)
+(*     Error paths: focused histories also start with every call that RAISES (Raises), followed  *)
+(*     by every ordinary call or by a cmp sample (cmps): "raise ; call".  Seed "real" holds      *)
+(*     numpy scalars (rows listed in np), datetime.date objects and a NaN, where a conversion    *)
+(*     skipped after an error shows.                                                              *)
 EXTENDS OrderSess, Json
 CONSTANTS MaxSteps,    \* length of the histories
           Shape,       \* "focused" | "free"
@@ -28,9 +32,16 @@ Row(a, b, i) == [a |-> a, b |-> b, id |-> VInt(i)]
 Tab(as, bs)  == [i \in 1..Len(as) |-> Row(as[i], bs[i], i)]
 TabB(bs)     == [i \in 1..Len(bs) |-> [b |-> bs[i], id |-> VInt(i)]]            \* a table without column a
 Heap(t1, t2, o1, o2, x) == [tabs |-> <<t1, t2>>, lsts |-> <<o1, o2, x>>, role |-> <<"o", "o", "v">>]
+Day(o)      == <<"date", o>>
+DT(o, s)    == <<"d", <<o, s, 0>>>>
+\* np: the row ids (tables) / positions (lists) of the seed heap whose numbers are rendered as numpy scalars - the same values
 I(k) == VInt(k)
 AllSeeds ==
-  { [name |-> "num", dup |-> 0,          \* numbers only (Python's own order never raises), a tie between an int and the equal float
+  { [name |-> "real", dup |-> 0,         \* realisations: numpy scalars next to plain numbers (with None: Python's own order raises),
+     S |-> Heap(Tab(<<I(2), None, I(1), VFlt(5, 2)>>, <<DT(730121, 0), Day(730120), DT(730120, 0), Day(730121)>>),      \* dates next to datetimes
+                TabB(<<VFlt(1, 1), N1, I(1), I(2)>>),
+                <<I(1), VFlt(5, 2)>>, <<Day(730120)>>, <<VFlt(5, 2), I(1), None, I(2), VFlt(1, 1)>>)],
+    [name |-> "num", dup |-> 0,          \* numbers only (Python's own order never raises), a tie between an int and the equal float
      S |-> Heap(Tab(<<I(2), I(1), VFlt(1, 1)>>, <<I(1), I(2), I(1)>>), TabB(<<I(1), I(2)>>),      \* the second table and the value list
                 <<I(2), I(1)>>, <<I(1), I(3)>>, <<I(1), VFlt(1, 1), I(2)>>)],      \* are sorted ALREADY (where a shortcut would hand back the operand)
     [name |-> "nan", dup |-> 0,          \* NaN objects among the keys and in an explicit order
@@ -46,6 +57,7 @@ AllSeeds ==
      S |-> Heap(Tab(<<VStr("a"), VStr("b"), VStr("ab"), VStr("a"), VStr("b")>>, <<I(1), I(2), VFlt(1, 1), I(3), I(2)>>), TabB(<<I(3), I(1), I(2)>>),
                 <<VStr("ab"), VStr("ab"), VStr("a")>>, <<I(1), VFlt(1, 1), I(2)>>, <<>>)] }
 Seeds == {s \in AllSeeds : s.name \in SeedNames}
+NpOf(name) == IF name = "real" THEN <<1, 4>> ELSE <<>>
 
 C(u, v) == CmpModel(u, v)
 Do(st) == /\ S' = Apply(C, S, st)
@@ -55,8 +67,9 @@ Do(st) == /\ S' = Apply(C, S, st)
 ValCalls(T) == {st \in Calls(T) : st.op = "sortval"}
 Offered ==
     IF seed.dup = 1 THEN (IF n < 2 THEN ValCalls(S) ELSE {})
-    ELSE IF Shape = "free" THEN Calls(S) \cup Edits(S)
-    ELSE CASE n = 0 -> Calls(S)
+    ELSE IF Shape = "free" THEN Calls(S) \cup Edits(S) \cup RaiseCalls(S) \cup {CmpsStep}
+    ELSE CASE n = 0 -> Calls(S) \cup RaiseCalls(S)
+           [] n = 1 /\ IsRaise(last) -> Calls(S) \cup {CmpsStep}                      \* "raise ; any call"
            [] n = 1 -> Calls(S) \cup {e \in Edits(S) : EditTouches(S0, hist[1], e)}
            [] n = 2 /\ IsEdit(last) -> {st \in Repeats(S0, hist[1]) : Enabled(S, st)}
            [] OTHER -> {}
@@ -98,15 +111,19 @@ FrameLaw == n > 0 =>
       [] IsCall(last) -> S.lsts = prev.lsts /\ SubSeq(S.tabs, 1, Len(prev.tabs)) = prev.tabs /\ Len(S.tabs) = Len(prev.tabs) + 1
       [] last.op = "setcol" -> S.lsts = prev.lsts /\ \A t \in 1..Len(S.tabs) : t # last.src => S.tabs[t] = prev.tabs[t]
       [] last.op = "setlst" -> S.tabs = prev.tabs /\ \A l \in 1..Len(S.lsts) : l # last.lst => S.lsts[l] = prev.lsts[l]
+      [] last.op \in {"raise", "cmps"} -> S = prev
+\* the error paths are there: some history is "a call that raises ; an ordinary call" (must fail)
+NoRaiseThenCall == ~(n = 2 /\ IsRaise(hist[1]) /\ IsCall(last))
 \* the "already sorted on these keys" shortcut is lawful only while the table is as the sort left it: once the caller has edited
 \* a key column of a result, sorting it again on the same keys is NOT the identity for some history (witness that the edits bite)
 EditsBite == ~(n = 3 /\ IsEdit(hist[2]) /\ hist[1].op = "sort" /\ last.src = Len(S0.tabs) + 1 /\ NewTab # S.tabs[last.src])
 
 \* ---- (2) the generator -------------------------------------------------------------------------------
-Emit == PrintT(ToJson([kind |-> "session", seed |-> seed.name, dup |-> seed.dup, init |-> S0, hist |-> hist, model |-> S]))
+Emit == PrintT(ToJson([kind |-> "session", seed |-> seed.name, dup |-> seed.dup, np |-> NpOf(seed.name), init |-> S0, hist |-> hist, model |-> S,
+                       exc |-> [k \in 1..Len(hist) |-> IF IsRaise(hist[k]) THEN ExcOf(hist[k].how) ELSE ""]]))
 \* (focused: a history ends with a call, or with the caller's edit of the RESULT of the call before it - the probe for a result
 \*  that shares objects with the operand: the edit must change the edited object only)
 EditsResult == n = 2 /\ IsEdit(last) /\ (IF last.op = "setcol" THEN last.src = Len(S0.tabs) + 1 ELSE hist[1].op = "listsort" /\ last.lst = Len(S0.lsts) + 1)
-ShouldEmit == IF Shape = "free" THEN n = MaxSteps + 1 ELSE n > 0 /\ n <= MaxSteps /\ (IsCall(last) \/ EditsResult)
+ShouldEmit == IF Shape = "free" THEN n = MaxSteps + 1 ELSE n > 0 /\ n <= MaxSteps /\ (IsCall(last) \/ EditsResult \/ last.op = "cmps")
 GenEmit == (Hist /\ ShouldEmit) => Emit
 =============================================================================
